@@ -179,13 +179,13 @@ fn emit_cob(o: &mut Out, line: String) {
 }
 
 fn big_rand(r: &mut Rng) -> String {
-    // boundary-biased: small values, values around 2^31 / 2^63, and up to ~40 decimal digits
+    // boundary-biased: small values, values around 2^31 / 2^63, and up to 24 decimal digits
     match r.below(5) {
         0 => r.range(-3, 3).to_string(),
         1 => (r.range(-2, 2) as i128 + if r.bool() { 1i128 << 31 } else { 1i128 << 63 } * if r.bool() { 1 } else { -1 }).to_string(),
         2 => r.range(-1000, 1000).to_string(),
         _ => {
-            let n = 1 + r.below(40);
+            let n = 1 + r.below(24);
             let mut s = String::new();
             if r.bool() { s.push('-'); }
             s.push(char::from(b'1' + r.below(9) as u8));
@@ -196,30 +196,33 @@ fn big_rand(r: &mut Rng) -> String {
 }
 
 fn gen_cob_cases(o: &mut Out, r: &mut Rng, thorough: bool) {
+    let mut lines: Vec<String> = vec![];
+    let q = &mut lines;
     let small = [0i64, 1, -1, 2, 3];
     // exhaustive: every closed component with g, x, y <= 6 at every (h,t) in {0,1,-1,2,3}^2 over i64, and symbolically
     for g in 0..=6 { for x in 0..=6 { for y in 0..=6 {
-        for h in small { for t in small { emit_cob(o, format!("ce z {} {} {} {} {} ;", g, x, y, h, t)); } }
-        emit_cob(o, format!("ce p {} {} {} H T ;", g, x, y));
+        for h in small { for t in small { q.push(format!("ce z {} {} {} {} {} ;", g, x, y, h, t)); } }
+        q.push(format!("ce p {} {} {} H T ;", g, x, y));
     } } }
     // larger genus / dot numbers, arbitrary precision parameters
-    let nb = if thorough { 3000 } else { 400 };
+    let nb = if thorough { 1500 } else { 300 };
     for _ in 0..nb {
-        let (g, x, y) = (r.below(if thorough { 11 } else { 9 }), r.below(13), r.below(13));
-        emit_cob(o, format!("ce b {} {} {} {} {} ;", g, x, y, big_rand(r), big_rand(r)));
+        // (the recursion of the code - and of its mirror - is exponential in g and in |x - y|: keep the sizes moderate)
+        let (g, x, y) = if thorough { (r.below(8), r.below(10), r.below(10)) } else { (r.below(7), r.below(8), r.below(8)) };
+        q.push(format!("ce b {} {} {} {} {} ;", g, x, y, big_rand(r), big_rand(r)));
     }
     if thorough {
-        for g in 7..=9 { for x in 0..=8 { for y in 0..=8 { emit_cob(o, format!("ce p {} {} {} H T ;", g, x, y)); } } }
+        for g in 7..=9 { for x in 0..=8 { for y in 0..=8 { q.push(format!("ce p {} {} {} H T ;", g, x, y)); } } }
     }
     // components with boundary
     let kinds = ["cyl", "cup", "cap", "arc", "sdl", "mrg"];
     let pts = [(0i64, 0i64), (1, 0), (0, 1), (-1, 2), (2, 3), (3, -1)];
     for k in kinds { for g in 0..=3 { for x in 0..=4 { for y in 0..=4 { for (h, t) in pts {
-        emit_cob(o, format!("co z {} {} {} {} {} {} ;", k, g, x, y, h, t));
+        q.push(format!("co z {} {} {} {} {} {} ;", k, g, x, y, h, t));
     } } } } }
     for _ in 0..(if thorough { 1500 } else { 200 }) {
         let k = *r.pick(&kinds);
-        emit_cob(o, format!("co b {} {} {} {} {} {} ;", k, r.below(8), r.below(10), r.below(10), big_rand(r), big_rand(r)));
+        q.push(format!("co b {} {} {} {} {} {} ;", k, r.below(6), r.below(8), r.below(8), big_rand(r), big_rand(r)));
     }
     // cobordisms of several closed components (Cob::new sorts them)
     for i in 0..(if thorough { 4000 } else { 600 }) {
@@ -231,11 +234,14 @@ fn gen_cob_cases(o: &mut Out, r: &mut Rng, thorough: bool) {
         }).collect();
         let body = comps.join(" , ");
         match i % 3 {
-            0 => emit_cob(o, format!("cp z {} {} ; {}", r.pick(&small), r.pick(&small), body)),
-            1 => emit_cob(o, format!("cp b {} {} ; {}", big_rand(r), big_rand(r), body)),
-            _ => emit_cob(o, format!("cp p H T ; {}", body)),
+            0 => q.push(format!("cp z {} {} ; {}", r.pick(&small), r.pick(&small), body)),
+            1 => q.push(format!("cp b {} {} ; {}", big_rand(r), big_rand(r), body)),
+            _ => q.push(format!("cp p H T ; {}", body)),
         }
     }
+    // shuffled, so that the expensive cases are spread over the shards of the model run
+    for i in (1..lines.len()).rev() { let j = r.below(i as u64 + 1) as usize; lines.swap(i, j); }
+    for l in lines { emit_cob(o, l); }
 }
 
 trait Dump {
